@@ -17,6 +17,9 @@
 #include <bee2/core/b64.h>
 #include <bee2/core/dec.h>
 #include <bee2/core/str.h>
+#include <bee2/core/err.h>
+#include <bee2/crypto/bign.h>
+#include <bee2/crypto/btok.h>
 
 /* ------------------------------------------------------------------ faults */
 static volatile int g_fault = 0;
@@ -597,13 +600,13 @@ static int aggMain(int argc, char** argv)
 typedef struct { const char* name; int n; octet o[8]; u32 code; int bad; } form_t;
 /* tag forms: bad = 1 -> the tag field alone makes the code invalid */
 static const form_t TAGS[] = {
-	{"short-tag", 1, {0x04}, 0x04, 0}, {"short-tag-constructed", 1, {0x30}, 0x30, 0}, {"short-tag-zero", 1, {0x00}, 0, 0},
-	{"short-tag-30", 1, {0xDE}, 0xDE, 0},
-	{"long-tag2-min", 2, {0x1F, 0x1F}, 0x1F1F, 0}, {"long-tag2", 2, {0x7F, 0x21}, 0x7F21, 0}, {"long-tag2-max", 2, {0x5F, 0x7F}, 0x5F7F, 0},
+	{"short-tag/04", 1, {0x04}, 0x04, 0}, {"short-tag/constructed", 1, {0x30}, 0x30, 0}, {"short-tag/zero", 1, {0x00}, 0, 0},
+	{"short-tag/30", 1, {0xDE}, 0xDE, 0},
+	{"long-tag2/min", 2, {0x1F, 0x1F}, 0x1F1F, 0}, {"long-tag2/7F21", 2, {0x7F, 0x21}, 0x7F21, 0}, {"long-tag2/max", 2, {0x5F, 0x7F}, 0x5F7F, 0},
 	{"long-tag-below-31", 2, {0x1F, 0x1E}, 0x1F1E, 1}, {"long-tag-leading-zero", 2, {0x1F, 0x00}, 0x1F00, 1},
-	{"long-tag3", 3, {0x1F, 0x81, 0x00}, 0x1F8100, 0}, {"long-tag3-max", 3, {0xFF, 0xFF, 0x7F}, 0xFFFF7F, 0},
+	{"long-tag3/min", 3, {0x1F, 0x81, 0x00}, 0x1F8100, 0}, {"long-tag3/max", 3, {0xFF, 0xFF, 0x7F}, 0xFFFF7F, 0},
 	{"long-tag-leading-zero", 3, {0x1F, 0x80, 0x7F}, 0x1F807F, 1},
-	{"long-tag4", 4, {0x1F, 0x81, 0x80, 0x00}, 0x1F818000, 0}, {"long-tag4-max", 4, {0x3F, 0xFF, 0xFF, 0x7F}, 0x3FFFFF7F, 0},
+	{"long-tag4/min", 4, {0x1F, 0x81, 0x80, 0x00}, 0x1F818000, 0}, {"long-tag4/max", 4, {0x3F, 0xFF, 0xFF, 0x7F}, 0x3FFFFF7F, 0},
 	{"long-tag-leading-zero", 4, {0x1F, 0x80, 0x80, 0x01}, 0x1F808001, 1},
 	{"long-tag5", 5, {0x1F, 0x81, 0x80, 0x80, 0x00}, 0x04, 1}, {"long-tag6", 6, {0x1F, 0x81, 0x80, 0x80, 0x80, 0x00}, 0x04, 1},
 };
@@ -685,8 +688,12 @@ static void recTL(int thorough)
 		else { vl[nv] = l->val; vn[nv++] = "v-exact"; if (l->val > 0) { vl[nv] = l->val - 1; vn[nv++] = "v-short-by-1"; } if (l->val <= 300 || thorough) { vl[nv] = l->val + 1; vn[nv++] = "v-long-by-1"; } }
 		for (k = 0; k < nv; ++k)
 		{
+			/* the first component names the least ordinary part: a bad or long tag, else a bad or huge length */
 			if (t->bad) setCls(t->name, 0, 0);
+			else if (strcmp(l->name, "len-near-SIZE_MAX") == 0 && t->n <= 2) setCls(l->name, t->name, vn[k]);
+			else if (t->n > 1) setCls(t->name, l->name, vn[k]);
 			else if (l->bad == 1 || l->bad == 3) setCls(l->name, 0, 0);
+			else if (l->bad == 2) setCls(l->name, t->name, vn[k]);
 			else setCls(t->name, l->name, vn[k]);
 			n = build(s, t, l, (size_t)vl[k]); tlOps(s, n, t, full);
 		}
@@ -739,14 +746,14 @@ static void recTyped(int thorough)
 	for (k = 0; k < 3; ++k) for (i = 0; i < NOF(INTS); ++i)
 	{
 		u32 tag = itags[k]; size_t vn = INTS[i].n;
-		setCls(INTS[i].name, k == 2 ? "tag4" : 0, 0);
+		if (k == 2) setCls("long-tag4", INTS[i].name, 0); else setCls(INTS[i].name, 0, 0);
 		n = wrap(s, tag, INTS[i].o, vn);
 		doSizeDec(s, n, tag); doUintDec(s, n, tag); doSizeDec2(s, n, tag, 127); doSizeDec2(s, n, tag, 0);
 		doUintDec2(s, n, tag, vn ? vn : 1); doUintDec2(s, n, tag, vn > 1 ? vn - 1 : 2);
 		if (k == 0)
 		{
 			doSizeDec(s, n, 0x04); doUintDec(s, n, 0x04);                 /* wrong expected tag */
-			setCls(INTS[i].name, "v-truncated", 0);
+			setCls("v-truncated", INTS[i].name, 0);
 			if (n > 2) { doSizeDec(s, n - 1, tag); doUintDec(s, n - 1, tag); }   /* value cut by one octet */
 			doSizeDec(s, 2, tag); doUintDec(s, 2, tag);                   /* TL only */
 			setCls(INTS[i].name, "v-garbage-after", 0);
@@ -770,7 +777,7 @@ static void recTyped(int thorough)
 		doBitDec(s, n, 0x03); doBitDec2(s, n, 0x03, bits); doBitDec2(s, n, 0x03, bits + 1); doBitDec2(s, n, 0x03, bits ? bits - 1 : 8);
 		doBitDec(s, n, 0x04);
 		n = wrap(s, 0x7F21, BITS[i].o, vn); doBitDec(s, n, 0x7F21);
-		setCls(BITS[i].name, "v-truncated", 0);
+		setCls("v-truncated", BITS[i].name, 0);
 		n = wrap(s, 0x03, BITS[i].o, vn); if (n > 2) doBitDec(s, n - 1, 0x03); doBitDec(s, 2, 0x03);
 	}
 	{	/* OCT: lengths around the length-field boundaries */
@@ -783,7 +790,7 @@ static void recTyped(int thorough)
 			if (ol[i] <= 256 || thorough) { doOctDec2(s, n, 0x04, ol[i] + 1); if (ol[i]) doOctDec2(s, n, 0x04, ol[i] - 1);
 			doDec234(s, n, 3, 0x04, ol[i], 0); doDec234(s, n, 3, 0x04, ol[i] + 1, 0); }
 			if (ol[i] <= 256) { doDec234(s, n, 4, 0x04, ol[i], g_data + 300); if (ol[i]) { doDec234(s, n, 4, 0x04, ol[i], g_data + 301); doDec234(s, n, 4, 0x04, ol[i] - 1, g_data + 300); } }
-			setCls(c, "v-truncated", 0);
+			setCls("v-truncated", c, 0);
 			doOctDec(s, n - 1, 0x04); if (ol[i] <= 256 || thorough) doOctDec2(s, n - 1, 0x04, ol[i]);
 		}
 	}
@@ -800,7 +807,7 @@ static void recTyped(int thorough)
 		doOidDec2(s, n, "1.2.840.11354"); doOidDec2(s, n, "1.2.840.1135490"); doOidDec2(s, n, "2.4294967215");
 		setCls(OIDS[i].name, "v-garbage-after", 0);
 		s[n] = 0x00; doOidDec(s, n + 1); doOidFromDer(s, n + 1);
-		setCls(OIDS[i].name, "v-truncated", 0);
+		setCls("v-truncated", OIDS[i].name, 0);
 		if (OIDS[i].n) { doOidDec(s, n - 1); doOidFromDer(s, n - 1); }
 		setCls(OIDS[i].name, "wrong-tag", 0);
 		s[0] = 0x08; doOidDec(s, n); doOidFromDer(s, n);
@@ -826,7 +833,7 @@ static void recTyped(int thorough)
 			doSeqDec(s, n, 0x30); doSeqDec(s, n + 1, 0x30); doSeqDec(s, n, 0x31); doSeqDec(s, n, 0x04);
 			if (n > 2) doSeqDec(s, n - 1, 0x30);
 			n = wrap(s, 0x7F21, g_data + 500, bl[i]); doSeqDec(s, n, 0x7F21);
-			n = wrap(s, 0x3F818000, g_data + 500, bl[i]); doSeqDec(s, n, 0x3F818000);
+			setCls("long-tag4", c, 0); n = wrap(s, 0x3F818000, g_data + 500, bl[i]); doSeqDec(s, n, 0x3F818000);
 		}
 	}
 }
@@ -848,24 +855,26 @@ static const size_t ELENS[] = { 0, 1, 127, 128, 255, 256, 65535, 65536, 0xFFFFFF
 static const char* const EOIDS[] = { "0.0", "0.39", "1.0", "1.39", "2.0", "2.39", "2.40", "2.47", "2.48", "2.999", "2.4294967215", "2.4294967216", "2.4294967295",
 	"1.2.840.113549", "1.2.112.0.2.0.34.101.31.81", "2.5.4.4294967295", "2.5.4.4294967296", "2.5.4.4294967299", "2.5.4.42949672950", "2.65500", "0.0.0", "1.2.0", "2.16383.16384.2097151.2097152.268435455.268435456",
 	"", "1", "1.", ".1", "1..2", "3.1", "0.40", "1.40", "01.2", "1.02", "1.2.03", "1.2.00", "1.2a", "1.2.", "1,2", " 1.2", "1.2 ", "-1.2", "1.-2", "2", "10.1", "1.2.840.113549." };
+/* family of a tag code given as u32 (by the number of octets it occupies) */
+static const char* encFam(u32 t) { return t > 0xFFFFFF ? "long-tag4" : t > 0xFFFF ? "long-tag3" : t > 0xFF ? "long-tag2" : "short-tag"; }
 static void recEnc(int thorough)
 {
 	size_t i, j;
 	for (i = 0; i < NOF(ETAGS); ++i) for (j = 0; j < NOF(ELENS); ++j)
 	{
 		if (j > 3 && !(i == 1 || i == 10 || i == 20)) continue;
-		snprintf(g_cls, sizeof g_cls, "enc-tag-%08X/len-%d", (unsigned)ETAGS[i], (int)j);
+		snprintf(g_cls, sizeof g_cls, "%s/enc-tag-%08X/len-%d", encFam(ETAGS[i]), (unsigned)ETAGS[i], (int)j);
 		doTLEnc(ETAGS[i], ELENS[j]); g_feed_tag = ETAGS[i]; if (g_last_n) feedLast(fTL);
 	}
 	for (i = 0; i < NOF(ETAGS); ++i) for (j = 0; j < 8; ++j)
 	{
 		if (j > 3 && !(i == 1 || i == 4 || i == 10 || i == 20)) continue;
 		if (j > 5 && !thorough && i != 4) continue;
-		snprintf(g_cls, sizeof g_cls, "enc-tag-%08X/vlen-%d", (unsigned)ETAGS[i], (int)ELENS[j]);
+		snprintf(g_cls, sizeof g_cls, "%s/enc-tag-%08X/vlen-%d", encFam(ETAGS[i]), (unsigned)ETAGS[i], (int)ELENS[j]);
 		if (j <= 5 || thorough) { doEnc(ETAGS[i], g_data + 900, ELENS[j]); if (g_last_n) feedLast(doDec); }
 		if ((ETAGS[i] >> (ETAGS[i] > 0xFFFFFF ? 24 : ETAGS[i] > 0xFFFF ? 16 : ETAGS[i] > 0xFF ? 8 : 0)) & 0x20 || i == 1)
 		{
-			snprintf(g_cls, sizeof g_cls, "seqenc-tag-%08X/vlen-%d", (unsigned)ETAGS[i], (int)ELENS[j]);
+			snprintf(g_cls, sizeof g_cls, "%s/enc-tag-%08X/seq-vlen-%d", encFam(ETAGS[i]), (unsigned)ETAGS[i], (int)ELENS[j]);
 			doSeqEnc(ETAGS[i], g_data + 900, ELENS[j]); g_feed_tag = ETAGS[i]; if (g_last_n) feedLast(fSeq);
 		}
 	}
@@ -876,7 +885,7 @@ static void recEnc(int thorough)
 		for (i = 0; i < NOF(sv); ++i) for (j = 0; j < 4; ++j)
 		{
 			if (j && i > 5) continue;
-			snprintf(g_cls, sizeof g_cls, "size-%d/tag-%X", (int)i, (unsigned)tg[j]);
+			if (j == 0) snprintf(g_cls, sizeof g_cls, "size-%d", (int)i); else snprintf(g_cls, sizeof g_cls, "%s/enc-tag-%08X/size-%d", encFam(tg[j]), (unsigned)tg[j], (int)i);
 			doSizeEnc(tg[j], sv[i]); g_feed_tag = tg[j]; if (g_last_n) { feedLast(fSize); feedLast(fUint); }
 		}
 	}
@@ -892,7 +901,7 @@ static void recEnc(int thorough)
 			octet v[64]; size_t vn = i < 2 ? 32 : i < 4 ? 64 : 127 + (i - 4); 
 			static octet big[130]; memcpy(big, g_data + 1000 + 130 * i, 130); memcpy(v, big, 64);
 			if (i % 2) big[vn - 1] |= 0x80; else big[vn - 1] = (big[vn - 1] & 0x7F) | 1;
-			snprintf(g_cls, sizeof g_cls, "uint-%u-octets-%s", (unsigned)vn, i % 2 ? "top-set" : "top-clear");
+			if (i == 5) snprintf(g_cls, sizeof g_cls, "long-tag4/enc-tag-1F818000/uint-%u-octets", (unsigned)vn); else snprintf(g_cls, sizeof g_cls, "uint-%u-octets-%s", (unsigned)vn, i % 2 ? "top-set" : "top-clear");
 			doUintEnc(i == 5 ? 0x1F818000 : 0x02, big, vn); g_feed_tag = i == 5 ? 0x1F818000 : 0x02; if (g_last_n) feedLast(fUint);
 		}
 	}
@@ -1033,6 +1042,120 @@ static void recApdu(int thorough)
 	}
 }
 
+/* ================================================================== containers: bign ECParameters */
+extern bool_t bignIsOperable(const bign_params* params);
+static void jParams(const bign_params* P)
+{
+	size_t no = P->l == 128 || P->l == 192 || P->l == 256 ? P->l / 4 : 0;
+	jInt("l", (long long)(P->l > 100000 ? 100000 : P->l)); jOct("p", P->p, no); jOct("a", P->a, no); jOct("b", P->b, no);
+	jOct("seed", P->seed, 8); jOct("yG", P->yG, no); jOct("q", P->q, no);
+}
+static void doParamsDec(const octet* src, size_t n)
+{
+	CASE_BEGIN("bignParamsDec", src, n)
+	const octet* p = xbuf(src, n); bign_params* P = (bign_params*)obuf(sizeof(bign_params)); err_t code; size_t e = 0; octet* re = 0; int op = 0, reok = 0;
+	code = bignParamsDec(P, p, n);
+	if (code == ERR_OK) { op = bignIsOperable(P) != 0; if (op && bignParamsEnc(0, &e, P) == ERR_OK && e < SANE) { re = obuf(e); reok = bignParamsEnc(re, &e, P) == ERR_OK; } }
+	lineHead(); jBool("ok", code == ERR_OK); jInt("code", (long long)code); jBool("operable", op);
+	if (code == ERR_OK) jParams(P); else { bign_params Z; memset(&Z, 0, sizeof Z); jParams(&Z); }
+	jBool("reok", reok); jOct("re", re, reok ? e : 0); jEnd();
+	CASE_END
+}
+static void doParamsEnc(const char* name)
+{
+	CASE_BEGIN("bignParamsEnc", 0, 0)
+	bign_params P[1]; size_t e = 0, e2; octet* out = 0; err_t c1, c2 = ERR_OK;
+	if (bignParamsStd(P, name) != ERR_OK) { fprintf(stderr, "driver: no params %s\n", name); _exit(5); }
+	c1 = bignParamsEnc(0, &e, P); e2 = e;
+	if (c1 == ERR_OK) { out = obuf(e); c2 = bignParamsEnc(out, &e2, P); }
+	lineHead(); jBool("ok", c1 == ERR_OK && c2 == ERR_OK); jBool("pc", e == e2); jParams(P); jOct("out", out, c1 == ERR_OK ? e : 0); jEnd();
+	keep(out, c1 == ERR_OK ? e : 0);
+	CASE_END
+}
+/* container mutants: cut at every offset, change every octet three ways, append, splice in the optional field */
+static void mutateAll(const octet* enc, size_t n, void (*f)(const octet*, size_t), const char* kind, const char* inst, int thorough)
+{
+	static octet m[4096]; size_t i; int k;
+	if (n + 8 > sizeof m) return;
+	snprintf(g_cls, sizeof g_cls, "%s-valid/%s", kind, inst); f(enc, n);
+	for (i = 0; i < n; ++i) { snprintf(g_cls, sizeof g_cls, "%s-truncated/%s", kind, inst); f(enc, i); }
+	for (i = 0; i < n; ++i) for (k = 0; k < 4; ++k)
+	{
+		static const char* kn[] = { "octet+1", "octet-1", "octet^80", "octet=seeded" };
+		if (k == 3 && !thorough && i > 40) continue;
+		memcpy(m, enc, n);
+		m[i] = k == 0 ? (octet)(m[i] + 1) : k == 1 ? (octet)(m[i] - 1) : k == 2 ? (octet)(m[i] ^ 0x80) : g_data[9000 + i];
+		if (m[i] == enc[i]) continue;
+		snprintf(g_cls, sizeof g_cls, "%s-%s/%s", kind, kn[k], inst); f(m, n);
+	}
+	memcpy(m, enc, n); m[n] = 0x00; snprintf(g_cls, sizeof g_cls, "%s-garbage-after/%s", kind, inst); f(m, n + 1);
+	m[n] = 0x05; m[n + 1] = 0x00; f(m, n + 2);
+}
+static void recParams(int thorough)
+{
+	static const char* names[] = { "1.2.112.0.2.0.34.101.45.3.1", "1.2.112.0.2.0.34.101.45.3.2", "1.2.112.0.2.0.34.101.45.3.3" };
+	static octet enc[1024], m[1100]; size_t n; int i, c;
+	for (i = 0; i < 3; ++i)
+	{
+		char what[32]; snprintf(what, sizeof what, "l%d", 128 + 64 * i);
+		setCls("params-std", what, 0);
+		doParamsEnc(names[i]); n = g_last_n; memcpy(enc, g_last, n);
+		mutateAll(enc, n, doParamsDec, "params", what, thorough);
+		/* optional cofactor: 02 01 c appended inside the outer SEQUENCE (its length grows by 3) */
+		for (c = 0; c < 4; ++c)
+		{
+			static const octet cof[4][3] = { {2, 1, 1}, {2, 1, 2}, {2, 1, 0}, {2, 2, 0} };
+			size_t hd = enc[1] == 0x81 ? 3 : 4, body = n - hd;
+			memcpy(m, enc, n); memcpy(m + n, cof[c], 3);
+			if (hd == 3) { if (body + 3 > 255) continue; m[2] = (octet)(body + 3); }
+			else { m[2] = (octet)((body + 3) >> 8); m[3] = (octet)(body + 3); }
+			snprintf(g_cls, sizeof g_cls, "params-cofactor-%d/%s", c, what); doParamsDec(m, n + 3);
+			snprintf(g_cls, sizeof g_cls, "params-cofactor-outside/%s", what); memcpy(m, enc, n); memcpy(m + n, cof[c], 3); doParamsDec(m, n + 3);
+		}
+	}
+}
+
+/* ================================================================== containers: CV certificates */
+static void doCvcUnwrap(const octet* src, size_t n)
+{
+	CASE_BEGIN("btokCVCUnwrap", src, n)
+	const octet* p = xbuf(src, n); btok_cvc_t* c = (btok_cvc_t*)obuf(sizeof(btok_cvc_t)); err_t code; int fmt; size_t pl, sl;
+	code = btokCVCUnwrap(c, p, n, 0, 0);
+	fmt = code != ERR_BAD_FORMAT;
+	pl = fmt && c->pubkey_len <= 128 ? c->pubkey_len : 0; sl = fmt && c->sig_len <= 96 ? c->sig_len : 0;
+	lineHead(); jBool("ok", code == ERR_OK); jBool("fmt", fmt); jInt("code", (long long)code);
+	jOct("authority", c->authority, fmt ? strnlen(c->authority, 13) : 0); jOct("holder", c->holder, fmt ? strnlen(c->holder, 13) : 0);
+	jOct("pubkey", c->pubkey, pl); jOct("from", c->from, fmt ? 6 : 0); jOct("until", c->until, fmt ? 6 : 0);
+	jOct("hat_eid", c->hat_eid, fmt ? 5 : 0); jOct("hat_esign", c->hat_esign, fmt ? 2 : 0); jOct("sig", c->sig, sl); jEnd();
+	CASE_END
+}
+static void doCvcLen(const octet* src, size_t n)
+{
+	CASE_BEGIN("btokCVCLen", src, n)
+	const octet* p = xbuf(src, n); size_t r = btokCVCLen(p, n);
+	lineHead(); jBool("ok", OKF(r)); jInt("n", NV(r)); jEnd();
+	CASE_END
+}
+static void fCvc(const octet* s, size_t n) { doCvcUnwrap(s, n); doCvcLen(s, n); }
+static void recCvc(int thorough)
+{
+	static octet cert[1024]; int i;
+	for (i = 0; i < 4; ++i)
+	{
+		btok_cvc_t c[1]; octet priv[64]; size_t pl = i == 0 ? 32 : i == 1 ? 48 : i == 2 ? 64 : 32, n = sizeof cert; char what[32]; err_t code;
+		memset(c, 0, sizeof c);
+		strcpy(c->authority, i == 1 ? "BYCA00000000" : "BYCA0000"); strcpy(c->holder, i == 2 ? "BYCA1000ABCD" : "BYCA1000");
+		memcpy(c->from, "\x02\x02\x00\x07\x00\x07", 6); memcpy(c->until, "\x09\x09\x00\x07\x00\x07", 6);
+		if (i != 3) memset(c->hat_eid, 0xEE, 5);
+		if (i != 0) memset(c->hat_esign, 0x77, 2);
+		memcpy(priv, g_data + 12000 + 64 * i, 64); priv[pl - 1] &= 0x7F; priv[0] |= 1;
+		code = btokCVCWrap(cert, &n, c, priv, pl);
+		if (code != ERR_OK) { fprintf(stderr, "driver: btokCVCWrap failed %u\n", (unsigned)code); _exit(6); }
+		snprintf(what, sizeof what, "%d", i);
+		mutateAll(cert, n, fCvc, "cvc", what, thorough);
+	}
+}
+
 int main(int argc, char** argv)
 {
 	const char* mode = argc > 1 ? argv[1] : "record";
@@ -1051,6 +1174,9 @@ int main(int argc, char** argv)
 		if (all || strcmp(part, "enc") == 0) recEnc(thorough);
 		if (all || strcmp(part, "text") == 0) recText(thorough);
 		if (all || strcmp(part, "apdu") == 0) recApdu(thorough);
+		if (all || strcmp(part, "params") == 0) recParams(thorough);
+		/* CV certificates run bign (point validation): not part of "all", the check runs them in a build without UBSan */
+		if (strcmp(part, "cvc") == 0) recCvc(thorough);
 		fflush(stdout);
 		fprintf(stderr, "@LINES %ld faults %ld\n", g_lines, g_nfault);
 		return 0;
